@@ -1,6 +1,6 @@
 (* C04 model driver: evaluates the extracted ABFModel at floats on case lines from stdin.
    Case:  ABF nd lower*nd width*nd nx*nd periodic*nd full min update cap maxf*nd szd same sub*nd hidej other*nd scaled sfac*(prod nx)
-              tsf late ndata (cnt0*(prod nx) grad0*(prod nx * nd))*ndata nevents event*nevents
+              tsf step0 late ndata (cnt0*(prod nx) grad0*(prod nx * nd))*ndata nevents event*nevents
           late = number of steps the engine made before the bias was defined (0: defined at the start)
           event = 0 x*nd e*nd o*nd j*nd boundary apply w*nd (a step; w = forces of the biases bypassing the extended Lagrangian)
                 | 1 cnt*(prod nx) grad*(prod nx * nd)       (restart: state file loaded into a new instance)
@@ -59,6 +59,8 @@ let () =
                      c_subtract = sub; c_hidej = hidej; c_other = other; c_scaled = scaled; c_sfac = sfac } in
            (* data read through inputPrefix *)
            let tsf = ni () in
+           let step0 = ni () in      (* absolute number of the first step of the job (setstep) *)
+           let kk = (z_of_int tsf, z_of_int step0) in
            let late = ni () in
            let ndata = ni () in
            let addr_of (ix : z list) : int =
@@ -109,8 +111,8 @@ let () =
                s := abf_event_apply fops c !s ev; s0 := !s; outs := []; seg := []
              | EvStep i ->
                seg := i :: !seg;
-               if tsf <= 1 || awake (z_of_int tsf) (st_clk !s i) then xcur := i.i_x;
-               let (s1, o) = if tsf > 1 then abf_mstep fops c (z_of_int tsf) !s i else abf_step fops c !s i in
+               if tsf <= 1 || awake kk (st_clk !s i) then xcur := i.i_x;
+               let (s1, o) = if tsf > 1 then abf_mstep fops c kk !s i else abf_step fops c !s i in
                (* The grids of the model are functions idx -> value, each step wrapping the previous one in a
                   closure: evaluate them once on the bins of the grid and continue with table look-ups
                   (same function on every index: outside the table the original closure answers). *)
